@@ -1347,16 +1347,15 @@ def run_c09(ctx):
         if cid.endswith('c'):
             if res.startswith('OK'):
                 continue
-            S, C, Sol = m['subject'], m['clip'], m['closed_solution']
-            ct, fr = m['ct'], m['fr']
-            pred = lambda w: (w[2] % 2 != 0) == geom.expected(ct, geom.filled(fr, w[0]), geom.filled(fr, w[1]))
-            conf = fw.confirm_region([S, C, Sol], geom.closed_edges(S) + geom.closed_edges(C), 4, pred, fw.parse_fail(res))
+            S, C, Sol, Sol0 = m['subject'], m['clip'], m['closed_solution'], m['closed_without_open']
+            pred = lambda w: (w[0] % 2 != 0) == (w[1] % 2 != 0)
+            conf = fw.confirm_region([Sol, Sol0], geom.closed_edges(S) + geom.closed_edges(C), 4, pred, fw.parse_fail(res))
             if not conf:
                 r2 = fw.recheck_deeper(ctx['root'], ctx['outdir'], [cid]).get(cid, '')
                 if r2.startswith('OK'):
                     continue
-            v = {'key': LOBE_KEY if lobe_known(m, conf) else key, 'kind': 'closed-altered', 'detail': {'corpus_entry': entry, 'closed_solution': Sol, 'confirmed': conf}}
-            v['text'] = ('the closed solution computed in the presence of open paths is not the boolean region of the closed inputs at (%s, %s), windings %s' % (conf['point'][0], conf['point'][1], conf['windings'])) if conf else 'closed-solution certificate rejected (%s)' % res[:80]
+            v = {'key': LOBE_KEY if lobe_known(m, conf) else key, 'kind': 'closed-altered', 'detail': {'corpus_entry': entry, 'closed_solution': Sol, 'closed_without_open': Sol0, 'confirmed': conf}}
+            v['text'] = ('the closed solution computed in the presence of open paths differs from the one computed without them at (%s, %s), > 2 units from every closed input edge: windings with/without open paths %s' % (conf['point'][0], conf['point'][1], conf['windings'])) if conf else 'closed-solution certificate rejected (%s)' % res[:80]
             if not conf:
                 v['no_input'] = True
             viol.append(v)
